@@ -216,7 +216,7 @@ func genFloats(c *genCtx) error {
 	}
 	nx := 250
 	if c.thorough() {
-		nx = 6000
+		nx = 2500
 	}
 	for i := 0; i < nx; i++ {
 		var x float64
@@ -354,7 +354,7 @@ func genFloats(c *genCtx) error {
 	// 6. random well-formed literals
 	n := 3000
 	if c.thorough() {
-		n = 80000
+		n = 40000
 	}
 	g := &docGen{rng: c.rng}
 	for i := 0; i < n; i++ {
